@@ -1254,9 +1254,12 @@ class TrajectoryStore:
                     f'hash of base file {check_associated.path}'
                 )
 
-        # Here, the `path`, `dataset`, `traj_dim`, `traj_var` and `size_index`
-        # fields are lists to support merged stores. In this case, we have a
-        # single file, so we put the values into singleton lists.
+        # Here, the `path`, `dataset`, `traj_dim` and `traj_var` fields are
+        # lists to support merged stores. In this case, we have a single file,
+        # so we put the values into singleton lists. The `size_index` is not
+        # used for a single file: its trajectory dimension can still grow (in
+        # APPEND mode), so a count taken now would go stale and trajectory
+        # indexes map directly to indexes within the file anyway.
         return TrajectoryStore.NcFiles(
             path=[nc_file],
             fieldsets=set(fieldset_names),
@@ -1265,7 +1268,7 @@ class TrajectoryStore:
             traj_var=[traj_var],
             species=species,
             groups=groups,
-            size_index=[len(traj_dim)],
+            size_index=None,
             title=title,
             comment=comment,
             history=history,
